@@ -102,7 +102,7 @@ class C15(PropertyCheck):
             cases.append(Case("packref %s %s" % (B(img), packlib.files_tokens(GAME_FILE_CONTENT)), "game-file"))
             cases.append(Case("packparse " + B(img), "game-file"))
         # ---- many files (implementation + oracle only)
-        for (n, bl) in ([(300, 1), (1000, 0)] if tier == "quick" else [(300, 1), (1000, 33), (65535, 0), (20000, 3)]):
+        for (n, bl) in ([(300, 1), (1000, 0), (32768, 0), (65535, 0)] if tier == "quick" else [(300, 1), (1000, 33), (65535, 0), (20000, 3)]):
             cases.append(Case("packbig %d %d" % (n, bl), "big"))
         # ---- (d) C05, pack part
         cases += packtotal.total_cases(rng, tier)
